@@ -61,6 +61,7 @@ def run(idx: ProgramIndex, rep: Report, tier: str):
         "covariance formulae of the individual kernels are equalities of real-valued functions and are not decidable from code shape.")
     rep.rule("C05-1", "Additive/Product kernels combine every member kernel, evaluated through __call__ on the same arguments, with + / *")
     rep.rule("C05-2", "ScaleKernel = base kernel value x constrained outputscale")
+    rep.rule("C05-4", "no in-place aliasing hazard in kernel forward code and the distance helpers (storage/version domain)")
     rep.rule("C05-3", "LCMKernel = sum over all member multitask kernels")
     K = "gpytorch.kernels.kernel"
     for cname, op, opname in (("AdditiveKernel", ast.Add, "+"), ("ProductKernel", ast.Mult, "*")):
@@ -203,3 +204,13 @@ def run(idx: ProgramIndex, rep: Report, tier: str):
         if not accs:
             probs.append("loop does not accumulate")
     rep.add("C05-3", "%s:LCMKernel.forward" % L.module.name, fi.where, not probs, "sum over all member multitask kernels on the same inputs" if not probs else "; ".join(sorted(set(probs))), {})
+
+    from .common_alias import aliasing_obligations
+    funcs = []
+    for c in idx.subclasses(Kc):
+        if "keops" in c.module.name:
+            continue
+        for nm in ("forward", "covar_dist", "__call__"):
+            if nm in c.methods:
+                funcs.append(c.methods[nm])
+    aliasing_obligations(idx, rep, "C05-4", funcs, 35, "kernel forward methods interpreted")
